@@ -85,6 +85,16 @@ def run_specs(stream, specs, ctx, per_class, r):
                 from harness.props import C17
                 from harness import gens
                 hh = C17.hub_header(module)
+                if hh is not None and r.random() < 0.5:
+                    # another model's name in another spelling (case) names no model: the instrument stays the one spelled
+                    others = [t for m2, sp in C17.tokens().items() if m2 != module for t in sp["tokens"]]
+                    t = r.choice(others).strip("^|")
+                    v = r.choice([t.lower(), t.upper(), t.swapcase(), t.title()])
+                    if v != t and "|" not in v and "^" not in v:
+                        h2 = C17.hub_header(module, name=v) if r.random() < 0.5 else hh.replace("|HOST|", "|%s|" % v)
+                        if h2 is not None and C17.expected_module(h2) == module:
+                            hh = h2
+                            stream.count("other-model-in-another-case")
                 if hh is not None:
                     raw_w, d_w = raw, d
                     if r.random() < 0.5:
